@@ -1,6 +1,6 @@
 (* Extraction of the executable models. ExtrOcamlBasic only: Z/positive/nat stay inductive. *)
 From MVGen Require Import JsTables_gen.
-From MV Require Import Base.MvBytes Num.NumModel Json.JsonModel Json.JsonSpec Dispatch.DispatchModel DataUri.DataUriModel Stream.StreamModel Buf.BufModel Cli.CliModel Cli.ConcatModel Stream.StreamHttp Xml.XmlModel Base.Ws Js.RenameModel Svg.PathSep Js.PrintModel Js.PrintGen.
+From MV Require Import Base.MvBytes Num.NumModel Json.JsonModel Json.JsonSpec Dispatch.DispatchModel DataUri.DataUriModel Stream.StreamModel Buf.BufModel Cli.CliModel Cli.ConcatModel Stream.StreamHttp Xml.XmlModel Base.Ws Js.RenameModel Svg.PathSep Js.PrintModel Js.PrintGen Css.CssBox.
 Require Extraction.
 Require Import ExtrOcamlBasic.
 Extraction Language OCaml.
@@ -15,4 +15,5 @@ Separate Extraction number0 decimal0 valid_number valid_decimal
   xml_minify escape_attr_val escape_cdata_val collapse
   emit st_cmd
   print_gen OpAssign
+  box_collapse_nat
   get_name rename_program js_identStart_alpha js_identContinue_alpha js_identStart_freq js_identContinue_freq.
